@@ -2,6 +2,14 @@
      allocate <IR> <in> <out> <fmt>            -> ok <IR with identifiers> <temporaries>
      interp <IR> <in> <out> <separate|aliased> <x>
                                                -> ok <value of out|undef> <value of in|undef> <state>
+     history <IR> <inA>,<outA>,<fmtA> <inB>,<outB>,<fmtB> <ops>
+                                               -> ok <clone IR> <clone temporaries> <original IR> <original temporaries>
+                                                     <output value, separate> <output value, aliased>
+       ops (comma separated) act on an unnamed program object P and its clones: i = pass.Indexes(P),
+       r = pass.ReadCounts(P), a = Allocator A on P, c = clone the latest clone (or P), b = Allocator B
+       on the latest clone.  Every object is allocated at most once and the last clone is allocated.
+       ir.Program.Clone copies the instructions and no pass results, so the clone's allocation is
+       that of a fresh program whatever ran on P, and P is unaffected by work on the clone.
    IR: instructions joined by ';' ('-' = no instruction): a<out>:<x>,<y> | d<out>:<x> | s<out>:<x>:<n>;
    operand: decimal index, optionally followed by '@' and the identifier as hex pairs. *)
 From Coq Require Import String.
@@ -90,10 +98,71 @@ Definition print_optZ (o : option Z) : list N :=
 Definition print_state (d : list (list N * option Z)) : list N :=
   print_list (fun e => print_bytes (fst e) ++ [colon] ++ print_optZ (snd e)) d.
 
+Definition parse_cfg (s : list N) : option alloc_cfg :=
+  match split comma s with
+  | [i; o; fm] =>
+      match parse_bytes i, parse_bytes o, option_map (fun b => parse_format b) (parse_bytes fm) with
+      | Some inp, Some outp, Some (Some pre) => Some (mkCfg inp outp pre)
+      | _, _, _ => None
+      end
+  | _ => None
+  end.
+
+Definition unnamed_operand (o : operand) : bool := match oname o with [] => true | _ => false end.
+Definition unnamed_instr (i : instr) : bool :=
+  unnamed_operand (iout i) && forallb unnamed_operand (inputs (iopn i)).
+
+(* history bookkeeping: (original allocated, a clone exists, latest clone allocated); None = not a valid history *)
+Definition hist_step (st : option (bool * bool * bool)) (op : list N) : option (bool * bool * bool) :=
+  match st with
+  | None => None
+  | Some (oa, hc, ca) =>
+      if str_eqb op $"i" then st
+      else if str_eqb op $"r" then st
+      else if str_eqb op $"a" then (if oa then None else Some (true, hc, ca))
+      else if str_eqb op $"c" then Some (oa, true, false)
+      else if str_eqb op $"b" then (if hc && negb ca then Some (oa, hc, true) else None)
+      else None
+  end.
+
+Definition print_run (outp : list N) (o : outcome machine) : list N :=
+  match o with
+  | Ok m => print_optZ (value_of m outp)
+  | Err c => $"err:" ++ c
+  | Panic c => $"panic:" ++ c
+  | OutOfFuel => r_fuel
+  end.
+
+Definition run_history (p : iprogram) (ca cb : alloc_cfg) (ops : list (list N)) : list N :=
+  match fold_left hist_step ops (Some (false, false, false)) with
+  | Some (oa, true, true) =>
+      if forallb unnamed_instr p then
+        match allocate cb p with
+        | Ok (q, tb) =>
+            let orig := if oa then allocate ca p else Ok (p, []) in
+            match orig with
+            | Ok (po, ta) =>
+                r_ok (print_ir q ++ [sp] ++ print_list print_bytes tb ++ [sp]
+                      ++ print_ir po ++ [sp] ++ print_list print_bytes ta ++ [sp]
+                      ++ print_run (cfg_out cb) (run_interp Separate (cfg_in cb) (cfg_out cb) 1 q) ++ [sp]
+                      ++ print_run (cfg_out cb) (run_interp Aliased (cfg_in cb) (cfg_out cb) 1 q))
+            | e => print_outcome (fun _ => []) e
+            end
+        | e => print_outcome (fun _ => []) e
+        end
+      else r_badcase
+  | _ => r_badcase
+  end.
+
 Definition run (line : list N) : list N :=
   match split sp line with
   | [f; ir; i; o; fm] =>
-      if str_eqb f $"allocate" then
+      if str_eqb f $"history" then
+        match parse_ir ir, parse_cfg i, parse_cfg o, parse_list (fun x => Some x) fm with
+        | Some p, Some ca, Some cb, Some ops => run_history p ca cb ops
+        | _, _, _, _ => r_badcase
+        end
+      else if str_eqb f $"allocate" then
         match parse_ir ir, parse_bytes i, parse_bytes o, option_map (fun b => parse_format b) (parse_bytes fm) with
         | Some p, Some inp, Some outp, Some (Some pre) =>
             print_outcome (fun r => print_ir (fst r) ++ [sp] ++ print_list print_bytes (snd r))
